@@ -52,5 +52,8 @@ def parseRows : List (Nat × List String × List (String × Int × Nat) × List 
 def removeBackground : List String := ["if psd.color_mode == ColorMode.RGB and data.shape[2] > 3 and has_transparency(psd): { color = data[:, :, :3]; index = get_transparency_index(psd) % data.shape[2]; alpha = data[:, :, index:index + 1]; a = np.repeat(alpha, color.shape[2], axis=2); color[a > 0] = (color + alpha - 1)[a > 0] / a[a > 0]; data[:, :, :3] = color }", "return data"]
 /-- every `constant - x` / `invert` of the module -/
 def numpyConstMinus : List String := []
+/-- the calls that decode stored planes (function: call): which depth and file version they pass -/
+def pilGetData : List String := ["convert_image_data_to_pil: psd._record.image_data.get_data(psd._record.header)", "_get_channel: channel_data.get_data(width, height, depth, layer._psd.version)"]
+def numpyGetData : List String := ["get_image_data: psd._record.image_data.get_data(psd._record.header, False)", "_find_channel: data.get_data(width, height, depth, version)"]
 
 end PsdVerif.Generated.PixelSamples
